@@ -135,8 +135,9 @@ class ExactAlgorithmCplex(ExactAlgorithmBase, PairwiseBasedAlgorithm):
                 # with this time the boolean set to False to prevent the useless computation of scc
                 # (and infinite loop obviously)
                 else:
-                    # update the ranking to return
-                    new_dataset: Dataset = dataset.sub_problem_from_ids(scc_i_set)
+                    # update the ranking to return. The rankings that rank no element of the sub-problem are kept
+                    # (as empty rankings): they count in the cost of the pairs of the sub-problem
+                    new_dataset: Dataset = dataset.sub_problem_from_ids(scc_i_set, keep_empty_rankings=True)
                     rankings: List[Ranking] = self._compute_consensus_rankings_with_optim(new_dataset, scoring_scheme,
                                                                                           False, True)
                     for bucket in rankings[0]:
